@@ -20,6 +20,7 @@ fn layout_family(fam: u64, n: usize, rng: &mut Rng, max_files: usize) -> Layout 
             number: k as u64,
             width: 5,
             segs: vec![],
+            symlink: false,
         })
         .collect();
     // cut points for spans
@@ -147,6 +148,10 @@ impl Prop for C17 {
         }
         if rng.chance(1, 3) {
             r.plan.chunk_blk = random_chunks(rng);
+        }
+        // simulated clock: the "every 10 seconds" progress report fires every few blocks (or every block)
+        if rng.chance(1, 2) {
+            r.plan.clock_step_ms = Some(*rng.pick(&[1u64, 900, 4000, 11_000, 86_400_000]));
         }
         let s = r.start.unwrap_or(0);
         let e = r.end.map(|x| x.min(t)).unwrap_or(t);
